@@ -93,6 +93,14 @@ CLAIMED["C08"] = ("One clause: the string-escape letters and character-name tabl
     "sibling-table agreement: case arms / constant initializers extracted from the C AST vs. tables and case clauses read from lib/srfi/38.scm",
     "3 C08")
 
+CLAIMED["C05"] = ("Compiler half only: (a) dataflow of the abstract tail flag through every generate_* function - each sub-expression is generated "
+    "with the flag its role requires (tests/operands/non-last statements 0, branches/last statement the entry flag, lambda body 1), and every "
+    "generator function returns with the flag at its entry value or 0; (b) SEXP_OP_TAIL_CALL is emitted only under a test of the saved entry "
+    "flag; (c) the VM's TAIL_CALL/APPLY1 cases re-base top on the caller's frame before make_call. Necessary conditions of constant-space tail "
+    "calls; macro-defined derived forms and the stack-growth/out-of-stack half are not decided.",
+    "forward dataflow over the CFG with a small powerset lattice {ENTRY,0,1,clobbered}; role table from AST accessors; dominance in the VM case",
+    "3 C05")
+
 # properties planned in DESIGN.md but whose checks are not built yet are listed
 # as not applicable *for now* with that reason, so the manifest never over-claims
 PENDING = {}
